@@ -540,4 +540,59 @@ theorem run_ChainInv : ∀ (ops : List Op) {n : Node}, ChainInv n → LinearHist
     show ChainInv ((n.apply op).run rest)
     exact run_ChainInv rest (apply_ChainInv op h hl.1) hl.2
 
+
+/-! ### the number index below the LIB -/
+
+theorem hashByNo_connect_ne (n : Node) (b : Blk) {k : Nat} (h : k ≠ b.no) : hashByNo (connect n b) k = hashByNo n k := by
+  unfold hashByNo connect
+  simp only
+  rw [List.find?_cons_of_neg]
+  simp only [beq_iff_eq]; omega
+
+theorem find?_map_append_none {bs : List Blk} {idx : List (Nat × String)} {k : Nat} (h : ∀ b ∈ bs, k < b.no) :
+    ((bs.map fun b => (b.no, b.id)) ++ idx).find? (·.1 == k) = idx.find? (·.1 == k) := by
+  induction bs with
+  | nil => rfl
+  | cons a t ih =>
+    simp only [List.map_cons, List.cons_append]
+    rw [List.find?_cons_of_neg]
+    · exact ih (fun b hb => h b (List.mem_cons_of_mem _ hb))
+    · have := h a List.mem_cons_self
+      simp only [beq_iff_eq]; omega
+
+theorem hashByNo_swap_below (n : Node) (bs : List Blk) {k : Nat} (h : ∀ b ∈ bs, k < b.no) :
+    hashByNo (swap n bs).1 k = hashByNo n k := by
+  unfold swap
+  cases bs with
+  | nil => rfl
+  | cons t r =>
+    simp only
+    split
+    · rfl
+    · unfold hashByNo
+      simp only
+      rw [find?_map_append_none h]
+
+/-- stores and Updates do not touch the number index. -/
+def QuietOp : Op → Prop
+  | .blk _ => True
+  | .update _ _ => True
+  | _ => False
+
+theorem quiet_index (n : Node) (op : Op) (h : QuietOp op) : (n.apply op).index = n.index := by
+  cases op with
+  | blk b => simp only [Node.apply]; split <;> rfl
+  | update b hint =>
+    simp only [Node.apply, statusUpdate, statusLoad]
+    split <;> split <;> (try split) <;> rfl
+  | connect b => exact absurd h (by simp [QuietOp])
+  | swap bs => exact absurd h (by simp [QuietOp])
+  | restart => exact absurd h (by simp [QuietOp])
+
+theorem quiet_run_index : ∀ (ops : List Op) (n : Node), (∀ op ∈ ops, QuietOp op) → (n.run ops).index = n.index
+  | [], _, _ => rfl
+  | op :: rest, n, h => by
+    show ((n.apply op).run rest).index = n.index
+    rw [quiet_run_index rest _ (fun o ho => h o (by simp [ho])), quiet_index n op (h op (by simp))]
+
 end Aergo.Lib
